@@ -23,6 +23,8 @@ import (
 	"github.com/libp2p/go-libp2p/core/network"
 	"github.com/libp2p/go-libp2p/core/peer"
 
+	"github.com/obolnetwork/charon/app/log"
+	"github.com/obolnetwork/charon/app/z"
 	"github.com/obolnetwork/charon/cluster"
 	"github.com/obolnetwork/charon/dkg"
 	"github.com/obolnetwork/charon/dkg/bcast"
@@ -78,6 +80,18 @@ func grid(thorough bool) []ceremony {
 			out[i].Rep += 3
 			out[i].Focus = "fault"
 		}
+		base = len(out)
+		add(engPedersen, []int{3, 4, 5, 6}, []int{2, 3, 4}, 1)
+		for i := base; i < len(out); i++ {
+			out[i].Rep += 4
+			out[i].Focus = "slowlink"
+		}
+		base = len(out)
+		add(engPedersen, []int{3, 4, 5}, []int{1, 2}, 1)
+		for i := base; i < len(out); i++ {
+			out[i].Rep += 5
+			out[i].Focus = "latedeal"
+		}
 		for _, n := range []int{3, 4} {
 			for _, algo := range []string{"frost", "pedersen"} {
 				out = append(out, ceremony{Engine: engFullRun + "-" + algo, N: n, T: n - 1, V: 2, Rep: 0})
@@ -103,6 +117,18 @@ func grid(thorough bool) []ceremony {
 			out[i].Rep += 3
 			out[i].Focus = "fault"
 		}
+		// Slow-link dimension: pedersen with a short real phase timer, see slowlink_test.go.
+		base = len(out)
+		add(engPedersen, []int{3, 4}, []int{2, 3}, 1)
+		for i := base; i < len(out); i++ {
+			out[i].Rep += 4
+			out[i].Focus = "slowlink"
+		}
+		// Late-bundle class: one dealer's deal reaches one node just after that node's own deal deadline.
+		out = append(out,
+			ceremony{Engine: engPedersen, N: 3, T: 2, V: 2, Rep: 5, Focus: "latedeal"},
+			ceremony{Engine: engPedersen, N: 4, T: 3, V: 2, Rep: 5, Focus: "latedeal"},
+			ceremony{Engine: engPedersen, N: 4, T: 2, V: 1, Rep: 5, Focus: "latedeal"})
 	}
 
 	return out
@@ -173,7 +199,7 @@ func TestCheck(t *testing.T) {
 	// failed or hung while duplicates were injected are information only and leave the denominator;
 	// what may be missing otherwise are ceremonies discarded for wall-clock timeouts of the real code.
 	if !r.Replaying() {
-		denom := r.Counter("ceremonies_started") - r.Counter("ceremonies_failed_under_redelivery") - r.Counter("ceremonies_no_verdict_under_fault")
+		denom := r.Counter("ceremonies_started") - r.Counter("ceremonies_failed_under_redelivery") - r.Counter("ceremonies_no_verdict_under_fault") - r.Counter("ceremonies_no_verdict_slow_link") - r.Counter("ceremonies_no_verdict_late_deal")
 		if ok := r.Counter("ceremonies_succeeded"); ok*4 < denom*3 {
 			r.Inconclusive("only %d of %d counted ceremonies succeeded (%d more failed under re-delivery and are not counted), need 3/4", ok, denom, r.Counter("ceremonies_failed_under_redelivery"))
 		}
@@ -309,6 +335,22 @@ func runFakenetCeremony(c *kit.Case, cer ceremony, reg *keyRegistry, logs *faken
 			plan.Kind, plan.Round = "sig", 1
 		}
 	}
+	var slow *slowPlan
+	phase := pedersenPhase
+	if cer.Focus == "slowlink" {
+		mode, dupProfile = modeSlowLink, dupNone
+		pm := rng.Perm(n)
+		a := 0.33 + 0.1*rng.Float64()
+		slow = &slowPlan{X: pm[0], Y: pm[1], Z: pm[2], J: rng.Intn(v - 1), P: slowPhase, A: a, B: a + 0.25 + 0.1*rng.Float64()}
+		phase = slowPhase
+	}
+	var late *latePlan
+	if cer.Focus == "latedeal" {
+		mode, dupProfile = modeLateDeal, dupNone
+		pm := rng.Perm(n)
+		late = &latePlan{D: pm[0], V: pm[1], K: rng.Intn(v), P: slowPhase}
+		phase = slowPhase
+	}
 	patience := 30 * time.Second
 	if cer.Engine == engPedersen {
 		// board handlers block until the protocol goroutine takes the bundle
@@ -320,6 +362,10 @@ func runFakenetCeremony(c *kit.Case, cer ceremony, reg *keyRegistry, logs *faken
 		if v, err := strconv.Atoi(os.Getenv("C11_BURST")); err == nil && v > 0 { // development aid
 			sc.burst = v
 		}
+	}
+	sc.slow, sc.late = slow, late
+	if slow != nil || late != nil {
+		sc.phaseP = phase
 	}
 	hostOf := func(i int) host.Host { return m.hosts[i] }
 	if plan != nil {
@@ -358,10 +404,12 @@ func runFakenetCeremony(c *kit.Case, cer ceremony, reg *keyRegistry, logs *faken
 				return dkg.VerifRunFrostParallel(ctx, tp, uint32(v), uint32(n), uint32(t), uint32(i+1), dkgCtx)
 			}
 		case engPedersen:
-			cfg := pedersen.NewConfig(m.ids[i], m.peerMap, t, session, pedersenPhase, nil)
+			cfg := pedersen.NewConfig(m.ids[i], m.peerMap, t, session, phase, nil)
 			board := pedersen.NewBoard(ctx, hostOf(i), cfg, bc)
+			// tag the node's log lines (kyber logs "Public polynomial missing - evicting dealer<idx>")
+			nodeCtx := log.WithCtx(ctx, z.Str("c11node", fmt.Sprintf("c%d-n%d;", c.Idx, i)))
 			nodeFns[i] = func() ([]share.Share, error) {
-				return pedersen.RunDKG(ctx, cfg, board, v)
+				return pedersen.RunDKG(nodeCtx, cfg, board, v)
 			}
 		}
 	}
@@ -398,7 +446,7 @@ func runFakenetCeremony(c *kit.Case, cer ceremony, reg *keyRegistry, logs *faken
 	remaining := n
 	firstFailed := -1
 	watchdog := ceremonyWatchdog
-	if plan != nil {
+	if plan != nil || slow != nil || late != nil {
 		watchdog = faultWatchdog
 	}
 	wd := time.NewTimer(watchdog)
@@ -521,7 +569,41 @@ wait:
 			w["fault"] = plan
 			w["fault_fired"] = faulted
 		}
+		if slow != nil {
+			w["slow_link"] = slow
+			w["slow_link_report"] = sc.slowGuard(v)
+		}
 		switch {
+		case late != nil:
+			// Real phase timers were running: an aborted or hung ceremony gives no verdict.
+			reason := "did-not-complete"
+			switch {
+			case outcome == outNodeError:
+				reason = errClass(firstErr)
+			case outcome == outWatchdog:
+				reason = "watchdog"
+			}
+			g := sc.lateGuard(v)
+			r.Count("ceremonies_no_verdict_late_deal", 1)
+			r.Count("late_deal_outcome/abort/"+reason, 1)
+			r.Set(fmt.Sprintf("late_deal_report/case%d", c.Idx), map[string]any{"ceremony": cer.String(), "plan": late, "timing": g, "outcome": "abort: " + reason,
+				"node_errors": errStrings(errs), "evictions": evictionsOf(logs, logStart, c.Idx)})
+		case slow != nil:
+			// Real phase timers were running: an aborted or hung slow-link ceremony gives no verdict.
+			reason := "did-not-complete"
+			switch {
+			case outcome == outNodeError:
+				reason = errClass(firstErr)
+			case outcome == outWatchdog:
+				reason = "watchdog"
+			case dropped > 0:
+				reason = "board-handler-dropped-bundle-after-receive-timeout"
+			}
+			g := sc.slowGuard(v)
+			r.Count("ceremonies_no_verdict_slow_link", 1)
+			r.Count(fmt.Sprintf("ceremonies_no_verdict_slow_link/failed/guard_ok=%v/%s", g.GuardOK, reason), 1)
+			r.Seen("no_verdict_slow_link_cases", fmt.Sprintf("case %d/%s/J=%d/%s/guard_ok=%v", c.Idx, cer, slow.J, reason, g.GuardOK))
+			r.Set("no_verdict_slow_link_example/failed", w)
 		case faulted:
 			// A transient stream failure was injected. The property allows the ceremony to abort
 			// (on the unchanged tree a relay error on a reliable broadcast or share send makes the
@@ -656,7 +738,67 @@ wait:
 		r.Seen("message_classes", cer.Engine+"/"+cl)
 	}
 
-	ost := checkShares(c, cer, results, st, reg)
+	// Slow-link / late-deal ceremonies: the measured guard only LABELS. The statement has no synchrony
+	// assumption, so whenever every node reported success the output oracle applies; if some bundle
+	// was handled by a node after that node's own phase deadline, every violation of the ceremony
+	// carries the suffix below (a separate, known behaviour of the pedersen code), otherwise the
+	// plain signature.
+	const lateSuffix = "/a-bundle-reached-a-node-after-its-own-phase-deadline"
+	sigSuffix := ""
+	var timing any
+	switch {
+	case slow != nil:
+		g := sc.slowGuard(v)
+		timing = g
+		r.Count("slow_link_ceremonies_completed", 1)
+		if g.Placed {
+			r.Count("slow_link_deal_placed_after_one_phase", 1)
+		}
+		if g.GuardOK {
+			r.Count("slow_link_ceremonies_inside_model", 1)
+		} else {
+			sigSuffix = lateSuffix
+			r.Count("slow_link_ceremonies_outside_model", 1)
+			r.Seen("slow_link_outside_model_cases", fmt.Sprintf("case %d/%s/J=%d: %s", c.Idx, cer, slow.J, g.Why))
+		}
+		r.Set(fmt.Sprintf("slow_link_report/case%d", c.Idx), map[string]any{"ceremony": cer.String(), "plan": slow, "report": g})
+		r.Sample(map[string]any{"ceremony": cer, "slow_link": slow, "report": g})
+	case late != nil:
+		g := sc.lateGuard(v)
+		timing = g
+		if !g.InsideModel {
+			sigSuffix = lateSuffix
+		}
+	}
+	ost := checkShares(c, cer, results, st, reg, sigSuffix)
+	if slow != nil || late != nil {
+		ev := evictionsOf(logs, logStart, c.Idx)
+		outcomeTxt := "success with equal outputs"
+		if ost.rejected {
+			var rules []string
+			for k := range ost.rules {
+				rules = append(rules, "dkg/"+cer.Engine+"/"+k)
+			}
+			sort.Strings(rules)
+			outcomeTxt = "success with DIVERGING outputs: " + strings.Join(rules, ", ")
+			for _, k := range rules {
+				r.Seen("slow_or_late_violation_signatures", k)
+			}
+		}
+		if late != nil {
+			r.Count("late_deal_ceremonies_completed", 1)
+			if ost.rejected {
+				r.Count("late_deal_outcome/success-diverging", 1)
+			} else {
+				r.Count("late_deal_outcome/success-equal", 1)
+			}
+			r.Set(fmt.Sprintf("late_deal_report/case%d", c.Idx), map[string]any{"ceremony": cer.String(), "plan": late, "timing": timing, "outcome": outcomeTxt, "evictions": ev,
+				"group_keys_per_node": groupKeys(results)})
+		} else if ost.rejected || len(ev) > 0 {
+			r.Set(fmt.Sprintf("slow_link_divergence/case%d", c.Idx), map[string]any{"ceremony": cer.String(), "plan": slow, "timing": timing, "outcome": outcomeTxt, "evictions": ev,
+				"group_keys_per_node": groupKeys(results)})
+		}
+	}
 	if st.Inversions > 0 {
 		r.Count("reordered_ceremonies", 1)
 		c.NonTrivial(kit.Hash(cer.Engine, n, t, v, hash))
@@ -666,6 +808,43 @@ wait:
 	}
 	r.Sample(map[string]any{"ceremony": cer, "schedule": st, "t_subsets_checked": ost.subsetsChecked, "subsets_exhaustive": ost.exhaustive,
 		"group_key_v0": hex.EncodeToString(results[0][0].PubKey[:8]), "first_deliveries": sc.orderCopy(12)})
+}
+
+// evictionsOf returns the "evicting dealer" lines kyber logged in this ceremony as "node i: <msg>"
+// (pedersen node contexts carry a c11node tag).
+func evictionsOf(logs *fakenet.LogCapture, from, caseIdx int) []string {
+	var out []string
+	tag := fmt.Sprintf("c%d-n", caseIdx)
+	for _, e := range logs.Since(from) {
+		if !strings.Contains(e.Msg, "evicting dealer") && !strings.Contains(e.Msg, "Public polynomial missing") {
+			continue
+		}
+		k := strings.Index(e.Raw, tag)
+		if k < 0 {
+			continue
+		}
+		node := e.Raw[k+len(tag):]
+		if j := strings.Index(node, ";"); j >= 0 {
+			node = node[:j]
+		}
+		out = append(out, fmt.Sprintf("node %s: %s", node, e.Msg))
+	}
+
+	return out
+}
+
+// groupKeys lists, per node, the first bytes of the group key of every validator.
+func groupKeys(results [][]share.Share) []string {
+	var out []string
+	for i, res := range results {
+		s := fmt.Sprintf("node %d:", i)
+		for _, sh := range res {
+			s += " " + hex.EncodeToString(sh.PubKey[:6])
+		}
+		out = append(out, s)
+	}
+
+	return out
 }
 
 // droppedByTimeout counts "Dropping <bundle>, context done" error lines of this ceremony's members
